@@ -342,10 +342,11 @@ func predict(c *core.Ctx, scen []*Scenario, timeout time.Duration) bool {
 		lays = append(lays, l)
 	}
 	b := ScriptBounds()
-	// C17_SELFTEST=sorted_model (sensitivity of the binding): predict with the REPAIRED collector; the
-	// real variation of the instance ids is then no longer a predicted one and must be reported as a
-	// violation instead of the known finding.
-	sorted := os.Getenv("C17_SELFTEST") == "sorted_model"
+	// The prediction uses the collector of the CURRENT tree: since fix 391e85a Collector.Finish visits
+	// the packages in sorted order (Sorted = TRUE), so a variation of the instance ids is no longer a
+	// predicted difference and is reported as a violation. C17_SELFTEST=unsorted_model predicts with the
+	// collector of the pinned tree (the former finding F6) instead.
+	sorted := os.Getenv("C17_SELFTEST") != "unsorted_model"
 	m, err := RunModel(c, ModelRun{Name: "predict", Family: "gen", Bnd: b, Given: given, Layouts: lays, Sorted: sorted, Sw: CodeSwitches(), EmitAll: true,
 		Invs: []string{"BSeenOK", "BEmit"}, Workers: 2, Timeout: timeout})
 	if err != nil || !tlcx.MustComplete(c, m.Res, err, "Build.tla (prediction for the scenarios)") {
